@@ -15,7 +15,7 @@ import (
 func init() {
 	registerEngine("MP", []string{"M1", "P1", "P2", "P3"}, runEngineMP)
 	registerEngine("Q", []string{"Q1", "Q2", "Q3", "Q4"}, runEngineQ)
-	registerEngine("S", []string{"S1", "S2", "S3", "S4", "S5"}, runEngineS)
+	registerEngine("S", []string{"S1", "S2", "S3", "S4", "S5", "S6"}, runEngineS)
 }
 
 // ---- M1 / P2 ------------------------------------------------------------------------------------------------------
@@ -456,6 +456,169 @@ var queueSpecs = []queueSpec{
 	{"fixtures/fx.BadQ3", "", "fixtures/fx.(*BadQ3).loop", "", "fixtures/fx.BadQ3.limit"},
 }
 
+// customEnq: insert methods of the current spec's repository queue type (set by runEngineQ per spec).
+var customEnq map[*ssa.Function]bool
+
+func funcNames(m map[*ssa.Function]bool) []string {
+	var out []string
+	for f := range m {
+		out = append(out, f.Name())
+	}
+	sort.Strings(out)
+	return out
+}
+
+func addrOfField(p *Prog, v ssa.Value, fk string) bool {
+	fa, ok := p.origin(v).(*ssa.FieldAddr)
+	return ok && fieldKeyAddr(fa) == fk
+}
+
+// repoQueueTypeOfField: the named struct type of the repository that the queue field holds (by value or pointer), or nil
+// (container/list, a slice, a channel).
+func repoQueueTypeOfField(p *Prog, fk string) *types.Named {
+	if fk == "" {
+		return nil
+	}
+	i := strings.LastIndex(fk, ".")
+	owner := p.namedByKey(fk[:i])
+	if owner == nil {
+		return nil
+	}
+	st, ok := owner.Underlying().(*types.Struct)
+	if !ok {
+		return nil
+	}
+	for j := 0; j < st.NumFields(); j++ {
+		if cFieldName(st.Field(j)) != fk[i+1:] {
+			continue
+		}
+		n := namedOf(deref(st.Field(j).Type()))
+		if n == nil || n.Obj().Pkg() == nil {
+			return nil
+		}
+		if _, isStruct := n.Underlying().(*types.Struct); !isStruct {
+			return nil
+		}
+		if !strings.HasPrefix(n.Obj().Pkg().Path(), modPath) && !strings.HasPrefix(n.Obj().Pkg().Path(), "fixtures") {
+			return nil
+		}
+		return n
+	}
+	return nil
+}
+
+// queueTypeMethods classifies the methods of a repository container type: insert methods store (something computed
+// from) a parameter into the receiver; remove methods return something loaded from the receiver and also store to it.
+func queueTypeMethods(p *Prog, t *types.Named) (enq, deq map[*ssa.Function]bool) {
+	enq, deq = map[*ssa.Function]bool{}, map[*ssa.Function]bool{}
+	for i := 0; i < t.NumMethods(); i++ {
+		fn := p.SSA.FuncValue(t.Method(i))
+		if fn == nil || fn.Blocks == nil || len(fn.Params) == 0 {
+			continue
+		}
+		recv := ssa.Value(fn.Params[0])
+		storesRecv, storesParam := false, false
+		instrsOf(fn, func(in ssa.Instruction) {
+			st, ok := in.(*ssa.Store)
+			if !ok {
+				return
+			}
+			root := p.origin(addrRoot(st.Addr))
+			if u, ok := root.(*ssa.UnOp); ok && u.Op == token.MUL {
+				root = p.origin(addrRoot(u.X)) // element of a slice held by the receiver
+			}
+			if root != recv {
+				return
+			}
+			storesRecv = true
+			for _, par := range fn.Params[1:] {
+				if isRefType(par.Type()) || containsRefs(par.Type()) {
+					if p.backwardReaches(st.Val, func(v ssa.Value) bool { return v == ssa.Value(par) }) {
+						storesParam = true
+					}
+				}
+			}
+		})
+		if storesParam {
+			enq[fn] = true
+			continue
+		}
+		if !storesRecv || fn.Signature.Results().Len() == 0 {
+			continue
+		}
+		returnsLoaded := false
+		for _, b := range fn.Blocks {
+			ret, ok := b.Instrs[len(b.Instrs)-1].(*ssa.Return)
+			if !ok {
+				continue
+			}
+			for _, r := range ret.Results {
+				if !isRefType(r.Type()) && !containsRefs(r.Type()) {
+					continue
+				}
+				if u, ok := p.origin(r).(*ssa.UnOp); ok && u.Op == token.MUL {
+					returnsLoaded = true
+				}
+				if _, ok := p.origin(r).(*ssa.Phi); ok {
+					returnsLoaded = true
+				}
+			}
+		}
+		if returnsLoaded {
+			deq[fn] = true
+		}
+	}
+	return enq, deq
+}
+
+// localQueueType: the consumer (or its helpers) calls both an insert and a remove method of one repository container
+// type on a local variable: that variable is the goroutine-local queue.
+func localQueueType(p *Prog, cons *ssa.Function) *types.Named {
+	_, group := groupWrites(p, cons)
+	cand := map[*types.Named][2]bool{}
+	for _, f := range append([]*ssa.Function{cons}, group...) {
+		instrsOf(f, func(in ssa.Instruction) {
+			c, ok := in.(*ssa.Call)
+			if !ok || c.Call.StaticCallee() == nil || len(c.Call.Args) == 0 || c.Call.StaticCallee().Signature.Recv() == nil {
+				return
+			}
+			n := namedOf(deref(c.Call.StaticCallee().Signature.Recv().Type()))
+			if n == nil || n.Obj().Pkg() == nil || !p.InUniverse(c.Call.StaticCallee()) {
+				return
+			}
+			// a local container: a variable, the result of a constructor call, or a helper's parameter — not a field
+			switch r := p.origin(c.Call.Args[0]).(type) {
+			case *ssa.Alloc, *ssa.Call, *ssa.Parameter, *ssa.Phi:
+			case *ssa.UnOp:
+				if _, isField := r.X.(*ssa.FieldAddr); isField {
+					return
+				}
+			case *ssa.FieldAddr:
+				if _, isAlloc := cellAddr(addrRoot(r)).(*ssa.Alloc); !isAlloc {
+					return
+				}
+			default:
+				return
+			}
+			enq, deq := queueTypeMethods(p, n)
+			v := cand[n]
+			if enq[c.Call.StaticCallee()] {
+				v[0] = true
+			}
+			if deq[c.Call.StaticCallee()] {
+				v[1] = true
+			}
+			cand[n] = v
+		})
+	}
+	for n, v := range cand {
+		if v[0] && v[1] {
+			return n
+		}
+	}
+	return nil
+}
+
 func runEngineQ(p *Prog, o *obls) {
 	for _, qs := range queueSpecs {
 		if p.Fixture != strings.HasPrefix(qs.typ, "fixtures/") {
@@ -467,7 +630,19 @@ func runEngineQ(p *Prog, o *obls) {
 			continue
 		}
 		// ---- Q1: FIFO discipline of the queue API
-		if qs.listFld != "" {
+		customEnq = nil
+		if qt := repoQueueTypeOfField(p, qs.listFld); qs.listFld != "" && qt != nil {
+			// the queue is a container type of the repository (a hand-written ring, a slice wrapper): its insert and
+			// remove methods are the enqueue/dequeue events of Q2; that they keep FIFO order (index arithmetic of the
+			// ring) is not decided
+			enq, deq := queueTypeMethods(p, qt)
+			customEnq = enq
+			if len(enq) == 0 || len(deq) == 0 {
+				o.undecided("Q1", qs.typ, p.Pos(cons.Pos()), "anchor unresolved: the queue's type "+typeKey(qt)+" has no recognisable insert and remove methods")
+			} else {
+				o.note("Q1", qs.typ, p.Pos(cons.Pos()), "the queue is the repository type "+typeKey(qt)+" (insert: "+strings.Join(funcNames(enq), ", ")+"; remove: "+strings.Join(funcNames(deq), ", ")+"); that these keep FIFO order is index arithmetic and not decided")
+			}
+		} else if qs.listFld != "" {
 			used := map[string]bool{}
 			var removeArgsOK = true
 			for _, fn := range p.Funcs {
@@ -510,7 +685,12 @@ func runEngineQ(p *Prog, o *obls) {
 			}
 		} else if qs.listFld == "" && qs.limiter != "" && qs.enqueue != "" || (qs.listFld == "" && strings.Contains(qs.consumer, "pacing")) {
 			// goroutine-local slice queue: append at the tail, take element 0, cut [1:]
-			q1LocalSlice(p, o, cons, qs)
+			if qt := localQueueType(p, cons); qt != nil {
+				enq, deq := queueTypeMethods(p, qt)
+				o.note("Q1", qs.typ, p.Pos(cons.Pos()), "the consumer's local queue is the repository type "+typeKey(qt)+" (insert: "+strings.Join(funcNames(enq), ", ")+"; remove: "+strings.Join(funcNames(deq), ", ")+"); that these keep FIFO order is not decided")
+			} else {
+				q1LocalSlice(p, o, cons, qs)
+			}
 		}
 		// ---- Q2: exactly-once hand-off per dequeued item
 		if qs.listFld != "" || strings.Contains(qs.consumer, "pacing") {
@@ -816,6 +996,9 @@ func q2Accept(p *Prog, o *obls, enq *ssa.Function, qs queueSpec) {
 			if qs.listFld != "" && x.Call.StaticCallee() != nil && x.Call.StaticCallee().Name() == "PushBack" && len(x.Call.Args) > 0 && loadOfField(p, x.Call.Args[0], qs.listFld) {
 				return true
 			}
+			if qs.listFld != "" && customEnq[x.Call.StaticCallee()] && len(x.Call.Args) > 0 && (loadOfField(p, x.Call.Args[0], qs.listFld) || addrOfField(p, x.Call.Args[0], qs.listFld)) {
+				return true
+			}
 		case *ssa.Send:
 			return true
 		}
@@ -1070,6 +1253,7 @@ func runEngineS(p *Prog, o *obls) {
 				}
 			}
 			s4CoUpdate(p, o, fn, ss)
+			s6CoAssign(p, o, fn, ss)
 			// ---- S2: loops over the packets of a compound are exhaustive
 			for _, l := range findRangeLoops(fn) {
 				st, ok := l.Slice.Type().Underlying().(*types.Slice)
@@ -1449,9 +1633,42 @@ func s5FanOut(p *Prog, o *obls, registry string) {
 		key := closureKey(c) + ":fan-out"
 		var rng *ssa.Range
 		var where *ssa.Function
+		// the range may sit in a method of a registry type that wraps the map (`r.registry.each(func(rec) {…})`): it is
+		// a range over the registry if every call of that method is made on the field that holds the wrapped map
+		wrappedRange := func(r *ssa.Range, f *ssa.Function) bool {
+			u, ok := p.origin(r.X).(*ssa.UnOp)
+			if !ok || u.Op != token.MUL || f.Signature.Recv() == nil || len(f.Params) == 0 {
+				return false
+			}
+			fa, ok := u.X.(*ssa.FieldAddr)
+			if !ok || p.origin(fa.X) != ssa.Value(f.Params[0]) {
+				return false
+			}
+			fv := fieldOfAddr(fa)
+			if fv == nil {
+				return false
+			}
+			sites, closed := p.staticCallSites(f)
+			if !closed || len(sites) == 0 {
+				return false
+			}
+			for _, s := range sites {
+				outer := containerKey(p, s.Common().Args[0])
+				if outer == "" {
+					return false
+				}
+				if old := p.wrappedBaselineField(ownerOfFieldKey(outer), fv.Type()); old != "" {
+					outer = ownerOfFieldKey(outer) + "." + old
+				}
+				if outer != registry {
+					return false
+				}
+			}
+			return true
+		}
 		for _, f := range p.calleeGroup(c.Fn) {
 			instrsOf(f, func(in ssa.Instruction) {
-				if r, ok := in.(*ssa.Range); ok && loadOfField(p, r.X, registry) {
+				if r, ok := in.(*ssa.Range); ok && (loadOfField(p, r.X, registry) || wrappedRange(r, f)) {
 					rng, where = r, f
 				}
 			})
@@ -1568,5 +1785,224 @@ func s5FanOut(p *Prog, o *obls, registry string) {
 	}
 	if n == 0 {
 		o.undecided("S5", owner, "-", "anchor unresolved: no RTCP closure of the registry's owner found")
+	}
+}
+
+// s6CoAssign (rule S6): figures copied from one report are recorded together. In a recording function, the stats fields
+// that are assigned a value computed from nothing but the fields of one source object (a reception report block, a
+// sender report: `stats.PacketsLost = int64(report.TotalLost)`, `stats.Jitter = float64(report.Jitter)/clockRate`) —
+// no state of the recorder, no clock, no call — describe that one report. On every path through one iteration over
+// the reports (or through the function, if it has no such loop) either all of them are assigned or none: an early
+// `continue` that skips one leaves a figure from an older report next to figures from the newest. Values that
+// legitimately depend on more (the round-trip time needs a matching sender report) are not part of the group.
+func s6CoAssign(p *Prog, o *obls, fn *ssa.Function, ss statsSpec) {
+	var recv ssa.Value
+	if fn.Signature.Recv() != nil && len(fn.Params) > 0 {
+		recv = fn.Params[0]
+	}
+	// directSource: the single object whose fields v is computed from (nil, false if v uses anything else)
+	directSource := func(v ssa.Value, statsRoot ssa.Value) (ssa.Value, bool) {
+		var src ssa.Value
+		ok := true
+		seen := map[ssa.Value]bool{}
+		var walk func(v ssa.Value, d int)
+		walk = func(v ssa.Value, d int) {
+			if !ok || v == nil || seen[v] || d > 12 {
+				return
+			}
+			seen[v] = true
+			switch x := v.(type) {
+			case *ssa.Const:
+			case *ssa.Convert:
+				walk(x.X, d+1)
+			case *ssa.ChangeType:
+				walk(x.X, d+1)
+			case *ssa.BinOp:
+				walk(x.X, d+1)
+				walk(x.Y, d+1)
+			case *ssa.UnOp:
+				if x.Op != token.MUL {
+					walk(x.X, d+1)
+					return
+				}
+				fa, isF := x.X.(*ssa.FieldAddr)
+				if !isF {
+					ok = false
+					return
+				}
+				root := cellAddr(addrRoot(fa))
+				if ia, isIA := root.(*ssa.IndexAddr); isIA {
+					root = ia // element of a slice, addressed in place
+				}
+				root = p.origin(root)
+				switch {
+				case root == statsRoot:
+					ok = false
+				case recv != nil && root == recv:
+					// configuration of the recorder (clock rate)
+				default:
+					if src == nil {
+						src = root
+					} else if src != root {
+						ok = false
+					}
+				}
+			case *ssa.Field:
+				walk(x.X, d+1)
+			default:
+				ok = false
+			}
+		}
+		walk(v, 0)
+		return src, ok && src != nil
+	}
+	type grp struct {
+		stores map[*ssa.Store]int
+		names  []string
+	}
+	groups := map[ssa.Value]*grp{}
+	instrsOf(fn, func(in ssa.Instruction) {
+		st, isSt := in.(*ssa.Store)
+		if !isSt || !throughStatsStruct(st.Addr, ss.pkgPath) || freshlyBuilt(p, st.Addr, fn) {
+			return
+		}
+		statsRoot := p.origin(cellAddr(addrRoot(st.Addr)))
+		src, ok := directSource(st.Val, statsRoot)
+		if !ok {
+			return
+		}
+		g := groups[src]
+		if g == nil {
+			g = &grp{stores: map[*ssa.Store]int{}}
+			groups[src] = g
+		}
+		name := statsFieldPath(st.Addr)
+		id := -1
+		for i, n := range g.names {
+			if n == name {
+				id = i
+			}
+		}
+		if id < 0 && len(g.names) < 5 {
+			id = len(g.names)
+			g.names = append(g.names, name)
+		}
+		if id >= 0 {
+			g.stores[st] = id
+		}
+	})
+	var srcs []ssa.Value
+	for src, g := range groups {
+		if len(g.names) >= 2 {
+			srcs = append(srcs, src)
+		}
+	}
+	sort.Slice(srcs, func(i, j int) bool { return srcs[i].Pos() < srcs[j].Pos() })
+	loops := naturalLoops(fn)
+	for gi, src := range srcs {
+		g := groups[src]
+		full := uint32(1)<<uint(len(g.names)) - 1
+		// the smallest loop that contains every store of the group: one iteration handles one source object
+		var header *ssa.BasicBlock
+		var body map[*ssa.BasicBlock]bool
+		for h, b := range loops {
+			all := true
+			for st := range g.stores {
+				if !b[st.Block()] {
+					all = false
+				}
+			}
+			if all && (body == nil || len(b) < len(body)) {
+				header, body = h, b
+			}
+		}
+		in := map[*ssa.BasicBlock]uint64{}
+		start := fn.Blocks[0]
+		if header != nil {
+			start = header
+		}
+		in[start] = 1
+		var bad []string
+		report := func(at string, st uint64) {
+			for sub := uint32(1); sub < full; sub++ {
+				if st&(1<<sub) != 0 {
+					var has, lacks []string
+					for j, n := range g.names {
+						if sub&(1<<uint(j)) != 0 {
+							has = append(has, n)
+						} else {
+							lacks = append(lacks, n)
+						}
+					}
+					bad = append(bad, fmt.Sprintf("a path to %s assigns %s but not %s", at, strings.Join(has, ", "), strings.Join(lacks, ", ")))
+				}
+			}
+		}
+		out := map[*ssa.BasicBlock]uint64{}
+		for iter := 0; iter < 40; iter++ {
+			changed := false
+			for _, b := range fn.Blocks {
+				if header != nil && !body[b] {
+					continue
+				}
+				st := in[b]
+				if b != start {
+					for _, pr := range b.Preds {
+						if header == nil || body[pr] {
+							st |= out[pr]
+						}
+					}
+				}
+				if st != in[b] {
+					in[b] = st
+					changed = true
+				}
+				for _, ins := range b.Instrs {
+					if s, ok := ins.(*ssa.Store); ok {
+						if id, ok := g.stores[s]; ok {
+							var nst uint64
+							for sub := uint32(0); sub <= full; sub++ {
+								if st&(1<<sub) != 0 {
+									nst |= 1 << (sub | 1<<uint(id))
+								}
+							}
+							st = nst
+						}
+					}
+				}
+				if st != out[b] {
+					out[b] = st
+					changed = true
+				}
+			}
+			if !changed {
+				break
+			}
+		}
+		for _, b := range fn.Blocks {
+			if header != nil && !body[b] {
+				continue
+			}
+			last := b.Instrs[len(b.Instrs)-1]
+			if _, isRet := last.(*ssa.Return); isRet {
+				report("the return at "+p.instrPos(last), out[b])
+			}
+			for _, sc := range b.Succs {
+				if header != nil && sc == header {
+					report("the end of the iteration at "+p.instrPos(last), out[b])
+				} else if header != nil && !body[sc] {
+					report("the loop exit at "+p.instrPos(last), out[b])
+				}
+			}
+		}
+		key := fmt.Sprintf("%s:co-assign", funcKey(fn))
+		if gi > 0 {
+			key = fmt.Sprintf("%s#%d", key, gi+1)
+		}
+		if len(bad) > 0 {
+			o.bad("S6", key, p.Pos(fn.Pos()), strings.Join(dedupe(bad), "; ")+": figures of different reports end up side by side")
+		} else {
+			o.ok("S6", key, p.Pos(fn.Pos()), fmt.Sprintf("the figures copied from one report (%s) are assigned on the same paths", strings.Join(g.names, ", ")))
+		}
 	}
 }
